@@ -76,7 +76,8 @@ package pubsub
 //@   ensures stored: result == msg.ID
 
 //@ func (*PubSub).checkSigningPolicy
-//@   property C03
+//@   property C03 C12
+//@   safe
 //@   requires msg: msg != nil && msg.Message != nil
 //@   noframe
 //@   ensures strict-sign: mustVerify(p) && mustSign(p) ==> (result != nil) == (msg.Message.Signature == nil)
@@ -94,7 +95,9 @@ package pubsub
 //@ ghost var vetted mset[ref]
 
 //@ func (*PubSub).shouldPush
-//@   property C02 C03 C16
+//@   property C02 C03 C16 C12
+//@   safe
+//@   requires wf: wfPubSub(p)
 //@   requires msg: msg != nil && msg.Message != nil
 //@   noframe
 //@   modifies vetted
@@ -120,8 +123,10 @@ package pubsub
 // pushMsg: a message reaches publishMessage only through the validation front end (Push true)
 // and a fresh markSeen of its ID, and then exactly once.
 //@ func (*PubSub).pushMsg
-//@   property C02 C03 C04
-//@   requires msg: msg != nil
+//@   property C02 C03 C04 C12
+//@   safe
+//@   requires wf: wfPubSub(p)
+//@   requires msg: msg != nil && msg.Message != nil
 //@   noframe
 //@   ensures validated: calls((*validation).Push) == old(calls((*validation).Push)) + 1 &&
 //@        lastarg((*validation).Push, 2) == msg && lastarg((*validation).Push, 1) == msg.ReceivedFrom
@@ -185,15 +190,20 @@ package pubsub
 //@ spec fn nHandle() int = calls(PubSubRouter.HandleRPC) - old(calls(PubSubRouter.HandleRPC))
 //@ spec fn nAccept() int = calls(PubSubRouter.AcceptFrom) - old(calls(PubSubRouter.AcceptFrom))
 //@ func (*PubSub).handleIncomingRPC
-//@   property C03 C09 C16
+//@   property C03 C09 C16 C12
+//@   safe
+//@   requires wf: wfPubSub(p)
 //@   requires rpc: rpc != nil
 //@   requires decoded: forall i int :: 0 <= i && i < len(rpc.RPC.Publish) ==> rpc.RPC.Publish[i] != nil
 //@   noframe
+//@   loop 1 invariant wf: wfPubSub(p) && rpc != nil
+//@   loop 2 invariant wf: wfPubSub(p) && rpc != nil
+//@   loop 3 invariant wf: wfPubSub(p) && rpc != nil
 //@   loop 1 invariant quiet: nPush() == 0 && nShould() == 0 && nHandle() == 0 && nAccept() == 0
 //@   loop 2 invariant vetting: nPush() == 0 && nHandle() == 0 && nAccept() == 1 && lastret(PubSubRouter.AcceptFrom) == AcceptAll &&
-//@        (forall i int :: 0 <= i && i < len(toPush) ==> vetted[toPush[i]] && toPush[i] != nil && allocated(toPush[i]))
+//@        (forall i int :: 0 <= i && i < len(toPush) ==> vetted[toPush[i]] && toPush[i] != nil && allocated(toPush[i]) && toPush[i].Message != nil)
 //@   loop 3 invariant pushing: nHandle() == 0 && nAccept() == 1 && lastret(PubSubRouter.AcceptFrom) == AcceptAll &&
-//@        (forall i int :: 0 <= i && i < len(toPush) ==> vetted[toPush[i]] && toPush[i] != nil && allocated(toPush[i]))
+//@        (forall i int :: 0 <= i && i < len(toPush) ==> vetted[toPush[i]] && toPush[i] != nil && allocated(toPush[i]) && toPush[i].Message != nil)
 //@   at call pushMsg assert only-vetted: vetted[$arg1]
 //@   ensures vet-once: nAccept() <= 1
 //@   ensures graylisted: nAccept() == 1 && lastret(PubSubRouter.AcceptFrom) == AcceptNone ==> nPush() == 0 && nShould() == 0 && nHandle() == 0
@@ -202,6 +212,14 @@ package pubsub
 //@   ensures accepted: nAccept() == 1 && lastret(PubSubRouter.AcceptFrom) == AcceptAll ==> nHandle() == 1 && lastarg(PubSubRouter.HandleRPC, 1) == rpc
 //@   ensures vetted-peer: nAccept() == 1 ==> lastarg(PubSubRouter.AcceptFrom, 1) == old(rpc.from)
 //@   ensures no-accept-no-processing: nAccept() == 0 ==> nPush() == 0 && nShould() == 0 && nHandle() == 0
+
+// ---- well-formedness of the instance (established by the constructors, never undone while the
+// event loop runs): what the no-panic obligations of property C12 rely on ----
+//@ spec fn wfPubSub(p *PubSub) bool = p.rt != nil && p.val != nil && p.idGen != nil && p.blacklist != nil && p.host != nil &&
+//@      p.topics != nil && p.myTopics != nil && p.peerFilter != nil && p.logger != nil && p.val.p == p && p.val.p.logger != nil &&
+//@      (forall t string :: t in p.myTopics ==> p.myTopics[t] != nil) &&
+//@      (forall t string :: t in p.topics ==> p.topics[t] != nil)
+//@ spec fn wfGS(gs *GossipSubRouter) bool = gs.p != nil && wfPubSub(gs.p) && gs.logger != nil && gs.params != nil
 
 // ---- the event loop: one event per iteration (per-iteration postconditions) ----
 //
@@ -213,10 +231,10 @@ package pubsub
 // cleared and the router is told - whatever Blacklist.Add returned.
 //@ func (*PubSub).processLoop
 //@   property C05 C13 C16 C14
-//@   cancellable
+//@   cancellable ctx
 //@   ensures exits-only-on-cancel: ctxdone(ctx)
 //@   noframe
-//@   loop 1 assume event-loop-invariant: invSub(p) && topicsRep(p) && p.peers != nil &&
+//@   loop 1 assume event-loop-invariant: invSub(p) && topicsRep(p) && p.peers != nil && wfPubSub(p) &&
 //@        (forall t string :: t in p.myTopics && p.myTopics[t] != nil ==> p.myTopics[t].topic == t)
 //@   at call handleAddSubscription assume request-from-Subscribe: $arg1 != nil && $arg1.sub != nil && $arg1.sub.topic in p.myTopics && p.myTopics[$arg1.sub.topic] != nil && !has(p.mySubs, $arg1.sub.topic, $arg1.sub)
 //@   at call handleRemoveSubscription assume request-from-Cancel: $arg1 != nil
@@ -374,3 +392,38 @@ package pubsub
 //@   ensures dropped: p.peers == nil && p.topics == nil
 //@   ensures all-closed: calls((*rpcQueue).Close) - old(calls((*rpcQueue).Close)) == old(len(p.peers))
 //@   ensures sweeper-stopped: calls(TimeCache.Done) == old(calls(TimeCache.Done)) + 1
+
+// ---- C12: remote input ----
+//
+// handleNewStream (one goroutine per inbound stream): a frame that cannot be read or decoded
+// ends this stream only (reset, or closed on EOF) and is not forwarded; only successfully decoded
+// RPCs reach the event loop, one hand-off per frame, tagged with the stream's remote peer; no
+// frame makes the reader panic (safety obligations on every dereference and index).
+//@ monitor PubSub.inboundStreamsMx
+//@   protects map(inboundStreams)
+//@   invariant handlers: self.inboundStreams != nil && (forall q string :: q in self.inboundStreams ==> self.inboundStreams[q].s != nil)
+
+//@ func (*PubSub).handleNewStream
+//@   property C12
+//@   safe
+//@   requires wf: p != nil && s != nil && p.inboundStreams != nil && p.rpcLogger != nil
+//@   noframe
+//@   loop 1 step forwarded-only-if-decoded: sent(p.incoming) - iter(sent(p.incoming)) <= 1 &&
+//@        (sent(p.incoming) > iter(sent(p.incoming)) ==> calls((*pb.RPC).Unmarshal) == iter(calls((*pb.RPC).Unmarshal)) + 1 && lastret((*pb.RPC).Unmarshal) == nil &&
+//@            lastsent(p.incoming).kind == incomingKindRPC && lastsent(p.incoming).rpc != nil && lastsent(p.incoming).rpc.from == peer)
+
+// GossipSubRouter.HandleRPC: control messages are handed to the five handlers, which are each
+// proved panic-free under the decoded-RPC assumption (repeated fields hold no nil elements).
+//@ func (*GossipSubRouter).HandleRPC
+//@   property C12
+//@   safe
+//@   requires wf: wfGS(gs) && rpc != nil && gs.extensions != nil && sepMesh(gs) && sepBackoff(gs) && validBackoffParams(gs) && gs.mcache != nil && mcRep(gs.mcache) &&
+//@        gs.peerhave != nil && gs.iasked != nil && gs.peerhave != gs.iasked && gs.params.MaxIHaveLength >= 0 && gs.peerdontwant != nil && gs.unwanted != nil && gs.params.MaxIDontWantLength >= 0 && gs.params.PrunePeers >= 0 && gs.peers != nil
+//@   requires decoded: rpc.RPC.Control != nil ==> (forall i int :: 0 <= i && i < len(rpc.RPC.Control.Graft) ==> rpc.RPC.Control.Graft[i] != nil) &&
+//@        (forall i int :: 0 <= i && i < len(rpc.RPC.Control.Prune) ==> rpc.RPC.Control.Prune[i] != nil &&
+//@            (forall j int :: 0 <= j && j < len(rpc.RPC.Control.Prune[i].Peers) ==> rpc.RPC.Control.Prune[i].Peers[j] != nil)) &&
+//@        (forall i int, k int :: 0 <= i && i < k && k < len(rpc.RPC.Control.Prune) ==> arr(rpc.RPC.Control.Prune[i].Peers) != arr(rpc.RPC.Control.Prune[k].Peers) || len(rpc.RPC.Control.Prune[i].Peers) == 0 || len(rpc.RPC.Control.Prune[k].Peers) == 0) &&
+//@        (forall i int :: 0 <= i && i < len(rpc.RPC.Control.Ihave) ==> rpc.RPC.Control.Ihave[i] != nil) &&
+//@        (forall i int :: 0 <= i && i < len(rpc.RPC.Control.Iwant) ==> rpc.RPC.Control.Iwant[i] != nil) &&
+//@        (forall i int :: 0 <= i && i < len(rpc.RPC.Control.Idontwant) ==> rpc.RPC.Control.Idontwant[i] != nil)
+//@   noframe
